@@ -39,11 +39,12 @@ type evT struct {
 }
 
 type caseT struct {
-	ID    int     `json:"id"`
-	N     int     `json:"n"`
-	BL    int64   `json:"bl"`
-	T0    int64   `json:"t0"`
-	Progs [][]opT `json:"progs"`
+	ID      int     `json:"id"`
+	N       int     `json:"n"`
+	BL      int64   `json:"bl"`
+	T0      int64   `json:"t0"`
+	Created int64   `json:"created,omitempty"` // creation time of the array when it differs from T0 (the clock starts at T0): late cases, monitor only
+	Progs   [][]opT `json:"progs"`
 	// Setup is executed first: Tid >= 0 means "run that goroutine until it is done"; Tid < 0 a tick.
 	Setup []evT `json:"setup,omitempty"`
 	// Script (if non-nil) is then executed literally; afterwards the chooser takes over.
@@ -146,7 +147,11 @@ func (r *runner) allDone() bool {
 
 func newRunner(c caseT) *runner {
 	r := &runner{c: c, clk: c.T0, tr: &traceT{}, holder: -1}
-	r.arr = stat.NewBucketLeapArrayWithTime(uint32(c.N), uint32(int64(c.N)*c.BL), uint64(c.T0))
+	created := c.T0
+	if c.Created != 0 {
+		created = c.Created
+	}
+	r.arr = stat.NewBucketLeapArrayWithTime(uint32(c.N), uint32(int64(c.N)*c.BL), uint64(created))
 	r.s = sched.New(func(id int) bool { return id >= 100 && id <= 127 })
 	r.rets = make([][]int64, len(c.Progs))
 	for i := range c.Progs {
@@ -747,6 +752,30 @@ func wrapCase(id int, j int) caseT {
 	return c
 }
 
+// lateCase: LATE TIMESTAMPS - the clock is behind the creation time of the array (an amount stamped
+// before the array existed, a wall clock stepped back): by 1 ms across a bucket boundary, by one bucket,
+// by a whole cycle.  The slot such a timestamp selects holds a NEWER start (creation lays future-dated
+// buckets out), so the recorder is "behind": with more than one bucket the amount must not be credited
+// to that newer bucket and must not surface in a later window (it is dropped); a reader one interval
+// later sees only what was stamped into its window.  Monitor only: the Coq machine starts its clock at
+// the creation time and never steps it back.
+func lateCase(id int, j int) caseT {
+	geos := [][2]int64{{2, 1000}, {2, 500}, {3, 100}, {4, 250}, {4, 1}}
+	ge := geos[j%len(geos)]
+	c := caseT{ID: id, N: int(ge[0]), BL: ge[1], Mode: "script", Note: "late-timestamp"}
+	interval := int64(c.N) * c.BL
+	created := tBase - tBase%interval + int64(j%c.N)*c.BL // on a bucket boundary
+	behind := []int64{1, c.BL, c.BL + 1, interval - 1, interval, interval + c.BL/2 + 1}[(j/len(geos))%6]
+	if c.BL == 1 && behind%interval == 0 {
+		behind++
+	}
+	c.Created = created
+	c.T0 = created - behind
+	c.Progs = [][]opT{{{Kind: "rec", Ev: 0, Amt: 5}}, {{Kind: "read", Ev: 0}}, {{Kind: "rec", Ev: 0, Amt: 1}, {Kind: "read", Ev: 0}}}
+	c.Setup = []evT{{Tid: 0}, {Tid: 1}, {Tid: -1, Dt: interval}, {Tid: 1}, {Tid: 2}}
+	return c
+}
+
 // corpus: regression witnesses kept as files (corpus/C09/*.json, field "case"); ids corpusBase+i in
 // file-name order. The directory is looked up from the working directory and from the executable upwards.
 func corpusDir() string {
@@ -840,7 +869,7 @@ func main() {
 	a := cli.Parse()
 	root := rng.New(a.Seed)
 	rep := emit.NewReport("C09", a.Seed, a.Tier)
-	rep.Rule = "random: n in 1..4 buckets x bl in {1,10,100,500,1000} ms, creation at a bucket boundary -1/0/+1/mid, optional filled array and a jump of up to 2 intervals, 2-3 goroutines x 1-2 record/read operations, up to 3 ticks (1, bl-1, bl, bl+1, interval, ...) placed by the random scheduler; scripted: the D7 interleaving for every parking position inside the reset; thorough: all interleavings of the listed small configurations. Non-trivial = at least two goroutines had operations in progress at the same time and a bucket was rolled over (a TryLock succeeded) during the schedule; distinct by executed schedule. parallel (search only): 4-16 real goroutines recording 500-2000 amounts each with timestamps on both sides of a bucket boundary (n >= 2 buckets; array created at the older bucket, or more than an interval earlier so that the racing recorders roll both slots over); per-bucket counters and the two window reads compared with the per-goroutine ledgers (exactly without rollover, as upper bounds with it); 8-16 goroutines recording one amount each at the same instant into a bucket whose slot is stale, for thousands of consecutive buckets: the bucket never holds more than was recorded for it; termination of the recording primitives: 2-4 scheduled goroutines in UpdateConcurrency on one bucket (a call returns to its write at most once per other recorder), 8-16 real goroutines mixing Add / AddRt / UpdateConcurrency on one bucket under a 10 s watchdog."
+	rep.Rule = "random: n in 1..4 buckets x bl in {1,10,100,500,1000} ms, creation at a bucket boundary -1/0/+1/mid, optional filled array and a jump of up to 2 intervals, 2-3 goroutines x 1-2 record/read operations, up to 3 ticks (1, bl-1, bl, bl+1, interval, ...) placed by the random scheduler; scripted: the D7 interleaving for every parking position inside the reset; 30 late-timestamp cases (the clock 1 ms / one bucket / one cycle behind the creation time of the array: monitor only); thorough: all interleavings of the listed small configurations. Non-trivial = at least two goroutines had operations in progress at the same time and a bucket was rolled over (a TryLock succeeded) during the schedule; distinct by executed schedule. parallel (search only): 4-16 real goroutines recording 500-2000 amounts each with timestamps on both sides of a bucket boundary (n >= 2 buckets; array created at the older bucket, or more than an interval earlier so that the racing recorders roll both slots over); per-bucket counters and the two window reads compared with the per-goroutine ledgers (exactly without rollover, as upper bounds with it); 8-16 goroutines recording one amount each at the same instant into a bucket whose slot is stale, for thousands of consecutive buckets: the bucket never holds more than was recorded for it; termination of the recording primitives: 2-4 scheduled goroutines in UpdateConcurrency on one bucket (a call returns to its write at most once per other recorder), 8-16 real goroutines mixing Add / AddRt / UpdateConcurrency on one bucket under a 10 s watchdog."
 	nCorr := a.Pick(a.N, 260, 2500)
 	nMon := a.Pick(a.Mon, 3000, 40000)
 	if a.Search {
@@ -903,6 +932,8 @@ func main() {
 			return edgeCase(id), nil
 		case id >= wrapBase && id < wrapBase+nWrap:
 			return wrapCase(id, id-wrapBase), nil
+		case id >= lateBase && id < lateBase+nLate:
+			return lateCase(id, id-lateBase), nil
 		case id < d7Base:
 			c := genRandom(root.Fork(uint64(id)), id)
 			return c, randomChooser(root.Fork(uint64(id) + 1<<40))
@@ -951,6 +982,9 @@ func main() {
 	runID(edgeBase, !a.Search)
 	for j := 0; j < nWrap; j++ {
 		runID(wrapBase+j, !a.Search)
+	}
+	for j := 0; j < nLate; j++ {
+		runID(lateBase+j, false) // monitor only
 	}
 	for i := range corpus {
 		runID(corpusBase+i, !a.Search)
